@@ -133,9 +133,12 @@ def scan_assumptions(lines):
     return sorted(set(found))
 
 
+RUN_ROOT = None  # bin/check sets a per-process directory so that concurrent checks never share generated files
+
+
 def process_unit(unit, seed, vacuity=True):
     res = UnitResult(unit)
-    outdir = os.path.join(BUILD, unit.name)
+    outdir = os.path.join(RUN_ROOT or BUILD, unit.name)
     shutil.rmtree(outdir, ignore_errors=True)
     os.makedirs(outdir)
     t0 = time.time()
